@@ -183,6 +183,36 @@ class _Conds:
         self.conds = conds
 
 
+def _subscript_witness(fn, conds, sub, info):
+    from itertools import product
+    head_off, line_off, n, esz = info
+    atoms = set()
+    for e in [sub] + [c for c, t, i in conds]:
+        for x in paths.subexprs(e):
+            if x[0] == "arg" or (x[0] == "ld" and is_head(x[1], info)):
+                atoms.add(x)
+    atoms = sorted(atoms, key=str)
+    if not atoms or len(atoms) > 3:
+        return None
+    argv = (0, 1, 2, 255, 256, 0xffffffff, 0xffffff00, 0x7fffffff, 0x80000000)
+    headv = (0, 1, 255, 256, 1000, 0x7fffff00, 0x7fffff01, 0x7ffffffe, 0x7fffffff)
+    for vals in product(*[(headv if a[0] == "ld" else argv) for a in atoms]):
+        env = dict(zip(atoms, vals))
+        try:
+            if not all(paths.cond_holds(cd, env) for cd in conds if cd[2] is None or cd[2].op != "switch"):
+                continue
+            v = paths.eval_concrete(sub, env)
+        except paths.NoValue:
+            return None
+        bits = paths.expr_bits(sub) or 64
+        v &= (1 << bits) - 1
+        if v >> (bits - 1):
+            v -= 1 << bits
+        if not 0 <= v < n:
+            return v, {("head" if a[0] == "ld" else "argument %d" % a[1]): (x if x < 0x80000000 or a[0] == "ld" else x - (1 << 32)) for a, x in env.items()}
+    return None
+
+
 def decide_subscript(chk, m, info, fn, conds, sub, inst, what, depth):
     """L1 for one access: subscript expression `sub` under branch conditions `conds` inside fn."""
     from ..domains.lin import Lin, expr_to_lin
@@ -244,6 +274,14 @@ def decide_subscript(chk, m, info, fn, conds, sub, inst, what, depth):
             chk.ob("L1.subscript-in-bounds", what, True, "file-local %s has no callers" % fn.name, inst.loc, fn.name)
         return
     env = None
+    # concrete witness search: the path's conditions and the subscript evaluated bit-precisely on boundary values of the arguments
+    # and of head (within the scope head < 2^31)
+    w = _subscript_witness(fn, conds, sub, info)
+    if w is not None:
+        chk.ob("L1.subscript-in-bounds", what, False,
+               "subscript %s of log.line[%d] is %d with %s: outside the array (a signed remainder is negative for a negative dividend; "
+               "the sum wraps the int once head + n reaches 2^31)" % (fmt(sub)[:50], n, w[0], w[1]), inst.loc, fn.name)
+        return
     if named and not skipped:
         atoms = sorted(idx.atoms() | set().union(*[h.atoms() for h in pr.hyps + pr.neqs]) if (pr.hyps or pr.neqs) else idx.atoms())
         env = pr.refute_ge0(Lin.const(n - 1) - idx, {a: boundary_values(n) for a in atoms})
